@@ -351,7 +351,7 @@ def overflow_pairing(ctx):
               "overflow record closed", fr.loc)
 
 
-@R.rule("C25-R2", floor=14, template="T-PATH/T-GUARD/T-SIBLING",
+@R.rule("C25-R2", floor=17, template="T-PATH/T-GUARD/T-SIBLING",
         desc="_do_get: every exceptional exit of _create_connection() after a successful _inc_overflow() "
              "passes _dec_overflow(); _do_return_conn: on Full the record is closed and _dec_overflow() "
              "runs even if close() raises; _create_connection() only behind a successful _inc_overflow(); "
@@ -431,9 +431,21 @@ def _checkout_limits(ctx):
     for name, m in sorted(qp.methods.items()):
         sites = [c for c in walk_local(m.node) if isinstance(c, ast.Compare)
                  and {_OVF, _MAX} <= {dotted(x) for x in ast.walk(c) if isinstance(x, ast.Attribute)}]
+        gm = ctx.cfg(m) if sites else None
         for i, c in enumerate(sites):
             kind = _limit_facts(ctx, m, pm, c, True, c)[0][0]
             n_cmp += 1
+            # the comparison means something only while a limit is enforced (the counter passes -1 on its way
+            # up in an unlimited pool): dominated by, or conjoined with, a 'limited' fact
+            top = c
+            while isinstance(pm.get(top), (ast.BoolOp, ast.UnaryOp)):
+                top = pm[top]
+            conj_ok = any(a is c for a, p in _conj(top, True)) and _limited_facts(m.node, top, True)
+            dom_ok = any(_limited_facts(m.node, t, pol) for nid in gm.nodes_containing(c) for t, pol in gm.edge_guards(nid))
+            ctx.check(conj_ok or dom_ok, f"{m.key}:limit-test-only-when-limited" + (f"#{i}" if len(sites) > 1 else ""),
+                      f"`{unparse(top)}` (line {c.lineno}) compares the counter with _max_overflow although no limit may be "
+                      f"enforced (_max_overflow == -1): an unlimited pool is treated as full once the counter reaches -1",
+                      f"`{unparse(c)}` only under `_max_overflow != -1`", f"{m.module.path}:{c.lineno}")
             ctx.check(kind in ("lt", "ge"), f"{m.key}:limit-cut" + (f"#{i}" if len(sites) > 1 else ""),
                       f"`{unparse(c)}` (line {c.lineno}) splits the counter at `_overflow {'<=' if kind == 'le' else '>'} "
                       f"_max_overflow`, the other limit tests at `<` / `>=`: with _overflow == _max_overflow one site says "
@@ -709,6 +721,13 @@ def r4(ctx):
                            "waits without bound although the caller gave a timeout (the pool's checkout never times out)"))
             if not modes:
                 bad.append(f"line {c.lineno}: `{unparse(c)}` is unreachable for every combination of block / timeout")
+        if bad:
+            # PathSense knows `block` and `timeout is None` only; a mode flag derived from them
+            # (`nowait = not block`) is opaque to it -> unknown idiom, not a verdict
+            derived = {nm for nm, v, _st in name_stores(m.node) if v is not None and names_in(v) & {"block", "timeout"}
+                       and _single_local(m.node, nm) is not None}
+            used = {nm for n in g.nodes if n.kind == "test" for nm in names_in(n.stmt.test)} & derived
+            ctx.require(not used, f"Queue.{name}: blocking mode is decided through derived local(s) {sorted(used)}; not understood")
         ctx.check(not bad, f"{m.key}:wait-mode", "; ".join(bad), f"{len(waits)} wait(s) consistent with block / timeout", m.loc)
         loops = [n for n in g.nodes if n.kind == "test" and isinstance(n.stmt, ast.While)
                  and any(call_name(c) == f"self.{pred}" for c in calls_in(n.stmt.test))]
@@ -934,9 +953,10 @@ def _gc_ownership(ctx):
         ctx.violation(key0, f"the weakref callback does not pass the weakref it is called with (`{cb_arg}`) to {F.name}(): "
                             f"the finalizer cannot tell whether the dead fairy still owns `{rec_name}`",
                       f"{co.module.path}:{call.lineno}")
-        ctx.violation(F.key + ":gc-callback-owns-record",
-                      f"{F.name}() is not given the weakref of the collected fairy, so no comparison with `{recp[0]}.fairy_ref` "
-                      f"can establish that the gc callback still owns the record", F.loc)
+        for asp in (":gc-callback-owns-record", ":owned-record-is-checked-in"):
+            ctx.violation(F.key + asp,
+                          f"not established: {F.name}() is not given the weakref of the collected fairy, so no comparison with "
+                          f"`{recp[0]}.fairy_ref` can tell whether the gc callback still owns the record", F.loc)
         return
     # the only thing that may stand between the callback and the finalizer is the interpreter-shutdown test
     # `<finalizer> is not None`
@@ -1031,7 +1051,6 @@ def _gc_ownership(ctx):
             return same
         return {l, r_} == {f"{recp}.fairy_ref", refp} and diff
     checkins = call_nodes(g, lambda nm, c: nm == f"{recp}.checkin")
-    ctx.require(checkins, f"{F.key} never calls {recp}.checkin()")
     skip = _edges_establishing(g, fn, excused)
     full, part = skip
     w = g.witness([g.entry], [g.exit], avoid=checkins, edge_ok=both(no_exc, cut_edges(full)))
@@ -1225,3 +1244,8 @@ R.mutant("benign-do-get-logging", IMPL,
 R.mutant("benign-inc-overflow-early-return-style", IMPL,
          sub("            if self._overflow < self._max_overflow:\n                self._overflow += 1\n                return True\n            else:\n                return False\n",
              "            if self._overflow < self._max_overflow:\n                self._overflow += 1\n                return True\n            return False\n"), None)
+# --- seed C29/1 (str-m): the undo handler narrowed to `except Exception` (CancelledError / GreenletExit pass by);
+#     caught here because overflow_pairing builds its CFG with strict_exc=True; C29-R5 reports the handler width itself
+R.mutant("seedC29-1-do-get-undo-handler-narrowed-to-exception", IMPL,
+         sub("            except:\n                with util.safe_reraise():\n                    self._dec_overflow()\n                raise\n",
+             "            except Exception:\n                with util.safe_reraise():\n                    self._dec_overflow()\n                raise\n"), "C25-R2")
